@@ -15,7 +15,7 @@ RULE = ('generated models (1-3 signatures) x recipes needing calibration (shippe
         'thorough) calibrate(D2, previous=calibrate(D1)) must equal calibrate(D1+D2) exactly and leave the previous result unchanged.  '
         'A unit is one (model, recipe, dataset); distinct by their digest; non-trivial iff the dataset has >=2 samples and >=1 runtime '
         'tensor was compared')
-ASSUMPTIONS = ['runtime tensors: rel 1e-5 + abs 1e-6*max|sample extreme| (library folds in float32)',
+ASSUMPTIONS = ['models with two signatures over ONE subgraph are left out: both update the same tensors, so the order in which a split dataset reaches them is not determined by the statement', 'runtime tensors: rel 1e-5 + abs 1e-6*max|sample extreme| (library folds in float32)',
                'resume equality is exact array equality', 'a constant that is not the weight operand may be recorded per tensor or per axis']
 TT = models.TT
 
@@ -79,7 +79,7 @@ def run_case(ctx, case, rng):
     n_sub = 1
     spec, tied = c15.build(rng, 'same_tensor' if rng.random() < 0.7 else 'tied_embedding', int(rng.integers(2, 4)))
   else:
-    spec = models.model_for_case(rng, multi_sub_p=0.0) if n_sub == 1 else models.rand_model(rng, n_sub=n_sub)
+    spec = models.model_for_case(rng, multi_sub_p=0.0, alias_p=0.0) if n_sub == 1 else models.rand_model(rng, n_sub=n_sub)
   n = int(rng.integers(1, 7))
   classes = gdata.DATA_CLASSES if rng.random() < 0.5 else ('normal', 'scaled')
   datasets = {s['key']: gdata.dataset(rng, s, n, classes) for s in spec.signatures}
